@@ -1035,6 +1035,21 @@ Proof.
   - eapply chain_drop2; exact HS.
 Qed.
 
+(* the popped context is put back after a run that failed (the run keeps flows, nesting and marks) *)
+Lemma BI_put_back s s1 prev rest :
+  BI s -> nested s = prev :: rest -> BI s1 -> flows s1 = flows s -> nested s1 = rest ->
+  marks (cx s1) = marks (cx s) -> BI (set_nested s1 (prev :: nested s1)).
+Proof.
+  intros (_ & _ & HC & HS) E (Hcd1 & HF1 & HC1 & HS1) Ef En Em. rewrite E in HC, HS.
+  split; [exact Hcd1|]. cbn [set_nested code dict flows cx nested]. split; [exact HF1|].
+  rewrite En in *. inversion HC as [|? ? H0 HC']; subst. inversion HC' as [|? ? H1 HC'']; subst.
+  inversion HC1 as [|? ? G0 G1]; subst. split.
+  - constructor; [exact G0|]. constructor; [rewrite Ef; exact H1|exact G1].
+  - apply chain_cons; [eapply chain_tail; exact HS|].
+    intros c Hc. unfold marks in Em. injection Em as Em _ _. rewrite Em.
+    apply (chain_head_max _ _ c HS). right. exact Hc.
+Qed.
+
 (* the state [s4] keeps the flow stack of [s], whose enclosing contexts were prev :: rest *)
 Lemma BI_leave s s4 prev prev' rest :
   BI s -> nested s = prev :: rest -> BI s4 -> flows s4 = flows s -> nested s4 = rest ->
@@ -1114,7 +1129,8 @@ Section Close2.
       specialize (Hp eq_refl).
       destruct (bip_run_m fo rf s0 B0) as [N R]. pose proof (run_m_fr fo rf s0) as F.
       destruct (run_m fo rf s0) as [u s1|k p s1| |]; cbn [res_all] in *;
-        [|apply good_err; exact R|contradiction|apply good_unsup].
+        [|apply good_err; destruct F as (F1 & F2 & F3 & _);
+          apply (BI_put_back s s1 prev rest HB En R F1 F2 F3)|contradiction|apply good_unsup].
       destruct F as (F1 & F2 & F3 & F4 & F5).
       assert (Hp1 : has_pending_flow s1 = false).
       { unfold has_pending_flow in *. rewrite F1. unfold marks in F3. injection F3 as -> _ _. exact Hp. }
@@ -1662,6 +1678,70 @@ Section Let2.
   Proof. exact (proj1 (bip_build_let f)). Qed.
 End Let2.
 
+(* ---------- enum ---------- *)
+Lemma lastn_cons_cases {A} (k : nat) (x : A) (r : list A) :
+  lastn k (x :: r) = if (k <=? length r)%nat then lastn k r else x :: r.
+Proof.
+  unfold lastn. cbn [length]. destruct (k <=? length r)%nat eqn:E.
+  - apply Nat.leb_le in E. replace (S (length r) - k) with (S (length r - k)) by lia. reflexivity.
+  - apply Nat.leb_gt in E. replace (S (length r) - k) with 0 by lia. reflexivity.
+Qed.
+
+(* the fields of the enum entry on top of the flow stack change: it points at nothing *)
+Lemma BI_enum_top s n f f' r :
+  BI s -> flows s = FEnum n f :: r -> BI (set_flows s (FEnum n f' :: r)).
+Proof.
+  intros (Hcd & HF & HC & HS) E. split; [exact Hcd|].
+  cbn [set_flows code dict flows cx nested]. rewrite E in HF, HC. split; [exact HF|]. split; [|exact HS].
+  eapply Forall_impl; [|exact HC]. intros c [H1 H2]. split; [exact H1|].
+  intros g Hg. rewrite lastn_cons_cases in Hg. specialize (H2 g). rewrite lastn_cons_cases in H2.
+  destruct (fs_len c <=? length r)%nat; [exact (H2 Hg)|].
+  destruct Hg as [<-|Hg]; [split; intros ? []|apply H2; right; exact Hg].
+Qed.
+
+Section Enum2.
+  Variable fo : fops.
+  Variable pr : string -> option Z.
+  Variable rf : nat.
+
+  Lemma bip_m_xint c : bip (m_xint c).
+  Proof. unfold m_xint. destruct (value c); first [apply bip_ret|apply bip_fail]. Qed.
+
+  Lemma bip_i_nested_begin : bip i_nested_begin.
+  Proof. unfold i_nested_begin. apply bip_context_open. Qed.
+
+  Lemma bip_def_immediate name nat : bip (def_immediate name nat).
+  Proof. unfold def_immediate. bip_solve. Qed.
+
+  Lemma bip_i_enum : bip (i_enum pr).
+  Proof. pose proof bip_i_nested_begin. pose proof bip_def_immediate. unfold i_enum. bip_solve. Qed.
+
+  Lemma bip_enum_add_field nm val : bip (enum_add_field nm val).
+  Proof.
+    unfold enum_add_field. apply bip_get_bind'. intros s0 B0.
+    destruct (flows s0) as [|f r] eqn:E; [apply bip_fail|].
+    destruct f; try apply bip_fail.
+    destruct (val fields) as [v|]; [|apply bip_fail].
+    apply bip_bind; [apply bip_put; eapply BI_enum_top; eassumption|intros _].
+    apply bip_bind; [apply bip_dict_insert|intros _]. apply bip_i_nested_begin.
+  Qed.
+
+  Lemma bip_i_enum_field : bip (i_enum_field fo pr rf).
+  Proof.
+    pose proof (bip_i_nested_end fo rf). pose proof bip_enum_add_field.
+    unfold i_enum_field. bip_solve.
+  Qed.
+
+  Lemma bip_i_enum_field_set : bip (i_enum_field_set fo pr rf).
+  Proof.
+    pose proof (bip_i_nested_end fo rf). pose proof bip_enum_add_field. pose proof bip_m_xint.
+    unfold i_enum_field_set. bip_solve.
+  Qed.
+
+  Lemma bip_i_endenum : bip (i_endenum fo rf).
+  Proof. pose proof (bip_i_nested_end fo rf). unfold i_endenum. bip_solve. Qed.
+End Enum2.
+
 (* ---------- the table of immediate words, build1, eval / compile ---------- *)
 Section Top2.
   Variable fo : fops.
@@ -1681,6 +1761,8 @@ Section Top2.
     pose proof (bip_i_nested_end fo rf). pose proof (bip_i_nested_inject fo rf).
     pose proof bip_i_def_begin_named. pose proof bip_build_local_variable.
     pose proof bip_build_global_variable.
+    pose proof (bip_i_enum pr). pose proof (bip_i_enum_field fo pr rf).
+    pose proof (bip_i_enum_field_set fo pr rf). pose proof (bip_i_endenum fo rf).
     repeat (apply Forall_cons;
             [ cbn [snd]; first [ apply bip_i_open; reflexivity | bip_solve ] | ]).
     apply Forall_nil.
